@@ -165,24 +165,25 @@ for srcBit := uint64(1); mask != 0; srcBit <<= 1 {
 are computed with `Nat` bit operations (negation modulo 2^64). -/
 def lowestBit (mask : Nat) : Nat := mask &&& ((2 ^ 64 - mask) % 2 ^ 64)
 
-def pdepLoop : Nat → Nat → Nat → Nat → Nat → Nat
-  | 0, _, _, _, result => result
+/-- `none` = the fuel ran out (never happens with 65: `pdepGo_eq_spec`) -/
+def pdepLoop : Nat → Nat → Nat → Nat → Nat → Option Nat
+  | 0, _, _, _, _ => none
   | fuel + 1, x, mask, srcBit, result =>
-    if mask = 0 then result else
+    if mask = 0 then some result else
     let maskBit := lowestBit mask
     let result := if x &&& srcBit ≠ 0 then result ||| maskBit else result
     pdepLoop fuel x (mask &&& (mask - 1)) ((srcBit <<< 1) % 2 ^ 64) result
 
-def pextLoop : Nat → Nat → Nat → Nat → Nat → Nat
-  | 0, _, _, _, result => result
+def pextLoop : Nat → Nat → Nat → Nat → Nat → Option Nat
+  | 0, _, _, _, _ => none
   | fuel + 1, x, mask, resultBit, result =>
-    if mask = 0 then result else
+    if mask = 0 then some result else
     let maskBit := lowestBit mask
     let result := if x &&& maskBit ≠ 0 then result ||| resultBit else result
     pextLoop fuel x (mask &&& (mask - 1)) ((resultBit <<< 1) % 2 ^ 64) result
 
-def pdepGo (x mask : Nat) : Nat := pdepLoop 65 x mask 1 0
-def pextGo (x mask : Nat) : Nat := pextLoop 65 x mask 1 0
+def pdepGo (x mask : Nat) : Option Nat := pdepLoop 65 x mask 1 0
+def pextGo (x mask : Nat) : Option Nat := pextLoop 65 x mask 1 0
 
 end Mieru.LowEntropy
 
@@ -199,5 +200,29 @@ def metaValid (proto mode half rot payloadLen extractedLen : Nat) : Bool :=
    else match encodedLen extractedLen mode with
      | none => false
      | some el => payloadLen == el)
+
+/-! ## The wire-level wrappers (pkg/protocol/underlay_base.go)
+
+The AEAD output of a data payload is `ciphertext body ‖ 16-byte tag`.  Only the body is expanded; the tag
+travels verbatim after the encoded body.  `extractedLen` = length of the ciphertext body, `payloadLen` =
+length of the encoded body (both metadata fields). -/
+
+/-- AEAD tag length (`cipher.DefaultOverhead`) -/
+def tagLen : Nat := 16
+
+/-- `encodeLowEntropyEncryptedPayload` (the padding polarity is the host-stable `lowEntropyPaddingBit`) -/
+def wrapEncode (ct : Bytes) (mode half rot payloadLen extractedLen : Nat) (pad : Bool) : Option Bytes :=
+  if ct.length ≠ extractedLen + tagLen then none else
+  match encode (ct.take extractedLen) mode half rot pad with
+  | none => none
+  | some body => if body.length ≠ payloadLen then none else some (body ++ ct.drop extractedLen)
+
+/-- `decodeLowEntropyEncryptedPayload`: metadata validation, length check, decode the body, keep the tag -/
+def wrapDecode (wire : Bytes) (proto mode half rot payloadLen extractedLen : Nat) : Option Bytes :=
+  if !metaValid proto mode half rot payloadLen extractedLen then none else
+  if wire.length ≠ payloadLen + tagLen then none else
+  match decode (wire.take payloadLen) extractedLen mode half rot with
+  | none => none
+  | some body => some (body ++ wire.drop payloadLen)
 
 end Mieru.LowEntropy
